@@ -220,7 +220,7 @@ func runC16_6(c *core.Ctx) {
 func init() {
 	register(&core.Rule{ID: "C16.7", Prop: "C16", MinSites: 1,
 		Desc: "the unix endpoint is the cleaned path: what parseProtoAddr returns as endpoint in the unix case is path.Join/path.Clean (or their filepath twins) over both u.Host and u.Path – plain concatenation would hand `/tmp//a.sock` or `./a.sock` on as written",
-		Run: runC16_7})
+		Run:  runC16_7})
 }
 
 func runC16_7(c *core.Ctx) {
